@@ -14,7 +14,7 @@ import os
 import re
 import shutil
 
-from . import common, lib_db, lib_fstrace
+from . import common, lib_records, lib_fstrace
 from .common import parallel_map
 
 RULE = ("cases = (database state reached by a random history of 0-9 completed commands, sometimes with one killed "
@@ -84,10 +84,10 @@ def _exec(e, stack, cmd):
 
 
 def _child_cmd(stack, userdata, cmd, crash_at, trace):
-    lib_db.silence()
+    lib_records.silence()
     os.chdir(os.path.dirname(stack))
     shutil.rmtree(os.path.join(userdata, "_caches_"), ignore_errors=True)
-    lib_db.patch_stamps()
+    lib_records.patch_stamps()
     tr = lib_fstrace.Tracer(os.path.join(stack, "ups_db"), crash_at)
     e = common.new_eups(flavor=FLAVORS[cmd["f"]], force=bool(cmd.get("force")))
     tr.install()
@@ -95,7 +95,7 @@ def _child_cmd(stack, userdata, cmd, crash_at, trace):
     try:
         _exec(e, stack, cmd)
     except Exception as ex:  # noqa
-        err = lib_db.exc_name(ex)
+        err = lib_records.exc_name(ex)
     tr.active = False
     return {"events": tr.events, "err": err, "pid": os.getpid()}
 
@@ -103,7 +103,7 @@ def _child_cmd(stack, userdata, cmd, crash_at, trace):
 def _child_read(stack, userdata):
     """A later read-only command: `eups list` for each flavor, in a fresh process whose cache is rebuilt from the
     record files (the user's cache directory is removed first)."""
-    lib_db.silence()
+    lib_records.silence()
     os.chdir(os.path.dirname(stack))
     out = []
     for f in FLAVORS:
@@ -114,7 +114,7 @@ def _child_read(stack, userdata):
             prods = e.findProducts()
             out.append(sorted([p.name, p.version, sorted(set(str(t) for t in p.tags))] for p in prods if p.flavor == f))
         except Exception as ex:  # noqa
-            out.append("EXC:" + lib_db.exc_name(ex))
+            out.append("EXC:" + lib_records.exc_name(ex))
     return out
 
 
@@ -171,7 +171,7 @@ def snapshot(stack, stale_ok=True, own_pid=None):
             try:
                 if rp[0] == "v":
                     vf = VF(full, verbosity=-1)
-                    ok = vf.name == pn and vf.version == base[:-8] and lib_db.read_text(full).endswith("End:\n")
+                    ok = vf.name == pn and vf.version == base[:-8] and lib_records.read_text(full).endswith("End:\n")
                     ent = [[_ids(fl, "f"), "modifier" in i] for fl, i in vf.info.items()]
                     ok = ok and all(e[0] is not None for e in ent) and all(
                         i.get("productDir") and i.get("table_file") and i.get("ups_dir") and i.get("declarer") for i in vf.info.values())
@@ -180,7 +180,7 @@ def snapshot(stack, stale_ok=True, own_pid=None):
                                 "paths": {fl: [i.get("productDir"), i.get("ups_dir"), i.get("table_file")] for fl, i in vf.info.items()}} if ok else "GARBLED"
                 else:
                     cf = CF(full, verbosity=-1)
-                    ok = cf.name == pn and cf.tag == base[:-6] and lib_db.read_text(full).endswith("#End:\n")
+                    ok = cf.name == pn and cf.tag == base[:-6] and lib_records.read_text(full).endswith("#End:\n")
                     ent = [[_ids(fl, "f"), _ids(i.get("version"), "v"), "modifier" in i] for fl, i in cf.info.items()]
                     ok = ok and all(e[0] is not None and e[1] is not None for e in ent) and all(i.get("declarer") for i in cf.info.values())
                     files.append([["main"] + rp, {"chain": ent} if ok else "part"])
@@ -439,7 +439,7 @@ def oracle(cmd, obs, st):
 # ---- evaluation ------------------------------------------------------------------------------------------------
 
 def _work(cases):
-    lib_db.silence()
+    lib_records.silence()
     return [run_case(c) for c in cases]
 
 
